@@ -69,6 +69,9 @@ class ZkServer:
         self.child_watches = {}
         self.log = []
         self.sync_delivery = True
+        self.lock_cond = threading.Condition()
+        self.lock_holders = {}      # election path -> session id
+        self.lock_waiters = {}
         self.pending = []           # queued (cb, event)
         self.before_write = None    # hook(client, op, path)
         self.on_op = None           # yield hook(client, op, path)
@@ -480,7 +483,47 @@ class ZkFakeClient:
         return None
 
     def Lock(self, path, identifier=None):   # pylint: disable=invalid-name
-        return threading.RLock()
+        return _ElectionLock(self, path)
+
+
+class _ElectionLock:
+    """What treadmill uses kazoo's Lock recipe for (leader election): one holder per path among the
+    live sessions; a contender blocks until the holder leaves or its session ends.  Re-entrant for the
+    holder's session.  ZkServer.lock_waiting(path) tells a harness that somebody is queued."""
+
+    def __init__(self, client, path):
+        self.client, self.path = client, path
+
+    def acquire(self, blocking=True, timeout=None):      # pylint: disable=unused-argument
+        srv = self.client.server
+        with srv.lock_cond:
+            while True:
+                holder = srv.lock_holders.get(self.path)
+                if holder is None or holder == self.client.sid or not srv.sessions.get(holder):
+                    srv.lock_holders[self.path] = self.client.sid
+                    return True
+                if not blocking:
+                    return False
+                srv.lock_waiters[self.path] = srv.lock_waiters.get(self.path, 0) + 1
+                srv.lock_cond.notify_all()
+                try:
+                    srv.lock_cond.wait(0.05)
+                finally:
+                    srv.lock_waiters[self.path] -= 1
+
+    def release(self):
+        srv = self.client.server
+        with srv.lock_cond:
+            if srv.lock_holders.get(self.path) == self.client.sid:
+                del srv.lock_holders[self.path]
+            srv.lock_cond.notify_all()
+
+    def __enter__(self):
+        self.acquire()
+        return self
+
+    def __exit__(self, *exc):
+        self.release()
 
 
 def selftest():
